@@ -779,6 +779,8 @@ sqf::runtime::runtime::result sqf::runtime::runtime::execute(sqf::runtime::runti
 {
     while (m_evaluate_halt);
     m_evaluate_halt = true;
+    // The scalar print mode is part of this runtime (the result usually gets printed by the caller)
+    sqf::types::d_scalar::set_decimals(m_scalar_decimals);
     if (request_halt)
     {
         while (m_state == state::running);
